@@ -156,8 +156,16 @@ def record_flatten(dfs, labels, two_d):
     try:
         res = flatten_dfs(arg, lab_arg)
         rec['out'] = [[int(a), int(b)] for a, b in zip(res['rowid'].values, res['Label'].values)]
+        # later calls on the SAME table objects (other labels, a shorter list): what the first call returned is a value - it does not change afterwards
+        try:
+            flatten_dfs([src[0]], [int(labels[0]) + 500])
+            flatten_dfs(arg, [[int(x) + 700 for x in row] for row in lab_arg] if two_d else [int(x) + 700 for x in lab_arg])
+        except Exception:
+            pass
+        rec['out_later'] = [[int(a), int(b)] for a, b in zip(res['rowid'].values, res['Label'].values)] if 'Label' in res.columns and 'rowid' in res.columns else [[-1, -1]]
     except Exception as ex:
         rec['raised'] = type(ex).__name__ + ':' + str(ex)[:50]
+    rec.setdefault('out_later', rec['out'])
     return rec
 
 
